@@ -15,7 +15,7 @@ EXHAUSTIVE = True
 RULE = ("all ordered pairs and triples of units within each of the 7 dimensions (41 units; exhaustive) x magnitudes "
         "{0, +-1, random in 1e-8..1e8 of either sign} (angles inside one turn, tangent units |angle|<1.5 rad); "
         "a case = (relation, dimension, units, magnitude); non-trivial when the units differ and the magnitude is non-zero")
-MUST_OBSERVE = ["pair_conversions", "round_trips", "triples", "units_seen"]
+MUST_OBSERVE = ["pair_conversions", "round_trips", "triples", "units_seen", "inplace_routes"]
 ASSUMPTIONS = ["R-SI table (vf/refs_si.py): exact inch, pound, grain, nautical mile, g0, conventional mmHg; "
                "Mil = 2pi/6400, Thousandth = 2pi/6000, OClock = 2pi/12",
                "float pi is taken as the library's pi (conversions compared in double precision)"]
@@ -64,6 +64,19 @@ def check_pair(ctx, dim, a, b, x):
     if got != got2 and not (math.isnan(got) and math.isnan(got2)):
         ctx.violation("pair.api-disagree", f"Unit.{a}({x!r}) >> {b} != {dim}({x!r}, {a}).get_in({b})", case,
                       got=got, got2=got2)
+    # the in-place route: read in the first unit, relabel with <<, read again (unit_value and the formatted string)
+    q2 = ua(x)
+    first = q2.unit_value
+    got3 = (q2 << ub).unit_value
+    ctx.count("inplace_routes")
+    if first != x and not (math.isnan(first) and math.isnan(x)) and abs(first - x) > 4 * EPS * si.condition(dim, a, a, x) * scale_of(dim, x):
+        ctx.violation("pair.unit_value-own-unit", f"Unit.{a}({x!r}).unit_value = {first!r}", case)
+    if got3 != got:
+        ctx.violation("pair.inplace-route", f"q = Unit.{a}({x!r}); q.unit_value; (q << {b}).unit_value = {got3!r} but Unit.{a}({x!r}) >> {b} = {got!r}", case,
+                      got=got3, want=got)
+    want_str = f"{round(got, ub.accuracy)}{ub.symbol}"
+    if str(q2) != want_str:
+        ctx.violation("pair.str-after-conversion", f"str() after << {b} gives {str(q2)!r}, expected {want_str!r}", case)
     want = si.convert(dim, a, b, x)
     cond = si.condition(dim, a, b, x)
     tol = REL * cond * scale_of(dim, want) if dim == "Temperature" else REL * cond * abs(want)
